@@ -400,16 +400,18 @@ def _long_cut_vectors(length, marks, max_gen, window, min_gen=1):
 
 
 def _long_histories(length, marks, gens, transports, vias, window):
-  """Generation 1: the full product; later generations: state as object
+  """Generation 1: the full product; later generations: state as object;
 
-  (and, with later_drained == (False,), the checkpointed iterator abandoned).
+  generation 2: the checkpointed iterator abandoned / as later_drained says;
+  generations >= 3: abandoned.
   """
   min_gen, max_gen, later_drained = gens
   for cuts in _long_cut_vectors(length, marks, max_gen, window, min_gen):
     first = len(cuts) == 1
     for transport, via, old in itt.product(
         transports if first else transports[:1], vias,
-        (False, True) if first else later_drained):
+        (False, True) if first else
+        later_drained if len(cuts) == 2 else (False,)):
       yield (cuts, transport, via, old)
 
 
@@ -522,7 +524,7 @@ def _hist_dict(hist):
 def _source_unit(args):
   specs, gens, transports, window, want_sample = args
   st = Stats()
-  with _Deadline(240):
+  with _Deadline(3600):
     for spec in specs:
       _, node = build_source(spec)
       expected = list(node.iterate())      # the uninterrupted run
@@ -763,7 +765,7 @@ def _out_marks(shape, spec, make_shard):
 def _pipeline_unit(args):
   pspecs, gens, transports, window, want_sample = args
   st = Stats()
-  with _Deadline(240):
+  with _Deadline(3600):
     for pspec in pspecs:
       for nt in NUM_THREADS:
         t, full = _uninterrupted(st, pspec, nt)
@@ -974,7 +976,8 @@ def run(ctx):
   pipe_transports = ('object', 'pickler') if quick else TRANSPORTS
   w = read_ahead_window()
   long_gens = (1, 2, (False,)) if quick else (1, 3, (False, True))
-  later = ' and the checkpointed iterator abandoned' if quick else ''
+  later = ' and the checkpointed iterator abandoned' + (
+      '' if quick else ' (generation 2: also drained)')
   ctx.notes['read_ahead_window'] = w
   four = '' if quick else (
       f'; additionally every 4-generation cut vector for sources n<={n_src4} '
@@ -1057,7 +1060,8 @@ def run(ctx):
     lpspecs = long_pipeline_specs(w, not quick)
     ctx.notes['long_pipeline_configurations'] = len(lpspecs)
     lunits = [(u, long_gens, pipe_transports, w, False) for u in
-              enums.chunks(ctx.shuffled(lpspecs), max(1, len(lpspecs) // 2))]
+              enums.chunks(ctx.shuffled(lpspecs),
+                           max(1, len(lpspecs) // (2 if quick else 1)))]
     ctx.pmap(_pipeline_unit, lunits + [
         u + (i == 0,) for i, u in enumerate(units)])
   if 'threads' in only:
